@@ -74,6 +74,12 @@ ExportPrefix ==
     PrintT(<<"REPLAY", ToJson([kind |-> "prefix", cfg |-> Header, steps |-> hist,
                                stuck |-> {s \in Sub : pc[s] # "finished"}])>>)
 
+\* gen (prefix mode, big instances): only schedules the harness can force, and of those all with
+\* a collision on a result mutex plus every fourth depth level of the rest
+HasCollision == \E k \in 1..Len(hist) : hist[k].act \in {"WaitResult", "WakeWait"}
+Forceable == \A k \in 1..Len(hist) : hist[k].hp
+ExportPrefixSel == (Forceable /\ (HasCollision \/ Len(hist) % 4 = 0)) => ExportPrefix
+
 \* gen (simulation mode): complete behaviours, printed when no step is enabled any more
 Stopped == ~ENABLED Step
 ExportFull ==
@@ -85,6 +91,7 @@ Calls_2x21 == [s1 |-> <<"i1", "i2">>, s2 |-> <<"i1">>]                  \* share
 Calls_2same == [s1 |-> <<"i1">>, s2 |-> <<"i1">>]
 Calls_1 == [s1 |-> <<"i1">>]
 Calls_3 == [s1 |-> <<"i1", "i1">>, s2 |-> <<"i1">>, s3 |-> <<"i2", "i1">>] \* thorough
+Calls_2x22 == [s1 |-> <<"i1", "i1">>, s2 |-> <<"i1", "i2">>]          \* same id twice in a row + second id
 Calls_3same == [s1 |-> <<"i1">>, s2 |-> <<"i1">>, s3 |-> <<"i1">>]
 
 \* vacuity guards (negated reachability: used as "invariants" only in scratch runs)
